@@ -57,8 +57,19 @@ def _reg_term(kind, N, fixed, tier):
             def facts(mod):
                 return {"family": "malformed", "what": "block accepted without its terminator", "block": kind,
                         "ntokens": len(ts.kinds)}
+
+            def scen(mod, kind=kind):
+                # the model's own token sequence as the body of a block (and of a nested block), cut off where it ends
+                kinds_, sids = C09.token_facts(m, ts, mod)
+                body = C09.render(m, kinds_, sids, "A").split("\n", 1)[1]
+                hdr = {"Loop": "loop(i,2)\n", "While": "while(1)\n"}[kind]
+                own = []
+                for src in ("A\n" + hdr + body, "A\n" + hdr + body + "\n", "A\nloop(o,2)\n" + hdr + body):
+                    own.append(Scenario(src, [], mode="parse", expect={"parse": "err"},
+                                        note="block body %r without its terminator" % body))
+                return own + R.battery
             O.prove(p, claim, "an accepted %s block ends with `end %s`" % (kind.lower(), kind.lower()), facts,
-                    R.battery, R.judge, extra=[rt == bv64(0)])
+                    scen, R.judge, extra=[rt == bv64(0)])
         if nok == 0 and N >= 2:
             O.inconclusive("vacuous: no accepted block with %d tokens" % N)
         O.note("%d paths, %d accepting" % (eng.npaths, nok))
